@@ -53,6 +53,11 @@ func startWatchdog(res *Result, out string) {
 					os.Exit(0)
 				}
 				wdResult.violate(v)
+				if wdResult.Property != "C12" {
+					v2 := v
+					v2.Property = wdResult.Property
+					wdResult.violate(v2)
+				}
 				wdResult.Notes = append(wdResult.Notes, "run aborted at the first hang; remaining cases not executed")
 				wdResult.write(wdOut)
 				os.Exit(hangExitRC)
